@@ -35,7 +35,8 @@ type waitState struct {
 	fired      int // index of the case completed by a partner, -1 while waiting
 	recvVal    Value
 	recvOk     bool
-	sleepUntil int64
+	sleepUntil *Term // ghost instant at which a sleeper wakes (nil: not sleeping); symbolic when a duration was
+	woken      bool  // set by advanceClock when the sleeper was chosen as the earliest pending event
 	custom     func() bool // generic wait condition (re-evaluated by the scheduler)
 	what       string
 }
@@ -60,7 +61,8 @@ type mutexState struct {
 }
 
 type timerV struct {
-	when   int64
+	when   *Term // ghost instant (64-bit term; a constant unless a symbolic duration is involved)
+	never  bool  // armed with a duration that overflows the clock: never fires
 	fn     Value  // AfterFunc callback
 	ch     *ChanV // NewTimer channel
 	active bool
@@ -199,7 +201,7 @@ func (m *Machine) schedule(g0 *G) (string, string) {
 		}
 		if len(ready) == 0 {
 			// everything blocked: advance the ghost clock to the earliest timer or sleeper
-			if m.advanceClock() {
+			if m.advanceClockSafe() {
 				continue
 			}
 			m.reportHang()
@@ -281,8 +283,14 @@ func (m *Machine) canProceed(g *G) bool {
 		}
 		return !w.mutex.locked && w.mutex.readers == 0
 	}
-	if w.sleepUntil > 0 {
-		return m.clock >= w.sleepUntil
+	if w.sleepUntil != nil {
+		if w.woken {
+			return true
+		}
+		if w.sleepUntil.IsConst() && m.clock.IsConst() {
+			return m.clock.SVal() >= w.sleepUntil.SVal()
+		}
+		return false // symbolic instants are ordered by advanceClock only (solver decisions)
 	}
 	for _, c := range w.cases {
 		if m.caseReady(g, c) {
@@ -556,15 +564,34 @@ func (m *Machine) mutexRUnlock(fr *Frame, p *Value) {
 
 // ---------- ghost clock ----------
 
-func (m *Machine) addTimer(d int64, fn Value, ch *ChanV, cell *Value) *timerV {
-	if d < 0 {
-		d = 0
+// timeAfter computes clock+d. Durations and the clock are 64-bit terms; with constants this is plain arithmetic, with
+// a symbolic duration (a peer's delay chosen by the solver) the two corner cases are solver decisions.
+func (m *Machine) timeAfter(fr *Frame, d *Term) (when *Term, never bool) {
+	zero := m.tf.Const(64, 0)
+	if d.IsConst() && m.clock.IsConst() {
+		dv := d.SVal()
+		if dv < 0 {
+			dv = 0
+		}
+		w := m.clock.SVal() + dv
+		if w < m.clock.SVal() { // overflow (math.MaxInt64 durations)
+			return m.tf.Const(64, uint64(int64(^uint64(0)>>1))), true
+		}
+		return m.tf.Const(64, uint64(w)), false
 	}
-	when := m.clock + d
-	if when < m.clock { // overflow (math.MaxInt64 durations)
-		when = int64(^uint64(0) >> 1)
+	if m.Decide(fr, m.tf.Slt(d, zero)) {
+		d = zero
 	}
-	t := &timerV{when: when, fn: fn, ch: ch, active: true, id: len(m.timers), cell: cell}
+	when = m.tf.Add(m.clock, d)
+	if m.Decide(fr, m.tf.Slt(when, m.clock)) {
+		return when, true
+	}
+	return when, false
+}
+
+func (m *Machine) addTimer(fr *Frame, d *Term, fn Value, ch *ChanV, cell *Value) *timerV {
+	when, never := m.timeAfter(fr, d)
+	t := &timerV{when: when, never: never, fn: fn, ch: ch, active: true, id: len(m.timers), cell: cell}
 	if m.race.on && m.cur != nil {
 		t.vc = vcCopy(m.gvc(m.cur))
 		m.tick(m.cur)
@@ -573,39 +600,72 @@ func (m *Machine) addTimer(d int64, fn Value, ch *ChanV, cell *Value) *timerV {
 	return t
 }
 
-// advanceClock fires the earliest pending timer / wakes the earliest sleeper. Returns false if nothing is pending.
-func (m *Machine) advanceClock() bool {
-	var best *timerV
-	for _, t := range m.timers {
-		if t.active && (best == nil || t.when < best.when) {
-			best = t
-		}
+// timeLess orders two ghost instants; symbolic instants are ordered by the solver (both orders are explored when both
+// are feasible: this is where "the peer answers before / after the timeout" becomes a fork).
+func (m *Machine) timeLess(a, b *Term) bool {
+	if a.IsConst() && b.IsConst() {
+		return a.SVal() < b.SVal()
 	}
+	return m.Decide(nil, m.tf.Slt(a, b))
+}
+
+// advanceClockSafe: the ordering decisions may abort the path (budget, infeasible prefix); the scheduler runs outside
+// any interpreted goroutine, so the abort is caught here and handed to the scheduling loop.
+func (m *Machine) advanceClockSafe() (ok bool) {
+	defer func() {
+		if r := recover(); r != nil {
+			if pa, isPA := r.(pathAbort); isPA {
+				m.abort = &pa
+				ok = true
+				return
+			}
+			panic(r)
+		}
+	}()
+	return m.advanceClock()
+}
+
+// advanceClock fires the earliest pending timer / wakes the earliest sleeper. Returns false if nothing is pending.
+// Ties: a sleeper before a timer, lower goroutine / timer index first (as in the all-concrete model).
+func (m *Machine) advanceClock() bool {
 	var sleeper *G
 	for _, g := range m.gs {
-		if g.state == gBlocked && g.wait != nil && g.wait.sleepUntil > 0 {
-			if sleeper == nil || g.wait.sleepUntil < sleeper.wait.sleepUntil {
+		if g.state == gBlocked && g.wait != nil && g.wait.sleepUntil != nil && !g.wait.woken {
+			if sleeper == nil || m.timeLess(g.wait.sleepUntil, sleeper.wait.sleepUntil) {
 				sleeper = g
 			}
 		}
 	}
-	if sleeper != nil && (best == nil || sleeper.wait.sleepUntil <= best.when) {
-		if sleeper.wait.sleepUntil > m.clock {
-			m.clock = sleeper.wait.sleepUntil
+	var best *timerV
+	for _, t := range m.timers {
+		if t.active && !t.never && (best == nil || m.timeLess(t.when, best.when)) {
+			best = t
 		}
+	}
+	if sleeper != nil && (best == nil || !m.timeLess(best.when, sleeper.wait.sleepUntil)) {
+		m.clockTo(sleeper.wait.sleepUntil)
+		sleeper.wait.woken = true
 		return true
 	}
 	if best == nil {
 		return false
 	}
-	if best.when == int64(^uint64(0)>>1) {
-		return false // "never" timers (math.MaxInt64) do not fire
-	}
-	if best.when > m.clock {
-		m.clock = best.when
-	}
+	m.clockTo(best.when)
 	m.fireTimer(best)
 	return true
+}
+
+// clockTo moves the clock forward to instant t (never backwards).
+func (m *Machine) clockTo(t *Term) {
+	if t.IsConst() && m.clock.IsConst() {
+		if t.SVal() > m.clock.SVal() {
+			m.clock = t
+		}
+		return
+	}
+	// pending events were armed at clock+d with d >= 0 and the earliest one is always taken first, so t >= clock holds
+	// on every path; the ite keeps the clock monotone even if an instant was computed from a wrapped term
+	m.clock = m.tf.Ite(m.tf.Slt(m.clock, t), t, m.clock)
 }
 
 func (m *Machine) fireTimer(t *timerV) {
@@ -632,7 +692,7 @@ func (m *Machine) fireTimer(t *timerV) {
 }
 
 func (m *Machine) hangString() string {
-	s := fmt.Sprintf("all goroutines blocked at ghost time %dns:", m.clock)
+	s := fmt.Sprintf("all goroutines blocked at ghost time %sns:", m.clockString())
 	for _, g := range m.gs {
 		if g.state == gBlocked {
 			what := ""
@@ -647,4 +707,11 @@ func (m *Machine) hangString() string {
 		}
 	}
 	return s
+}
+
+func (m *Machine) clockString() string {
+	if m.clock.IsConst() {
+		return fmt.Sprint(m.clock.SVal())
+	}
+	return "<symbolic>"
 }
